@@ -29,6 +29,9 @@ pub use run_root::start_with_config;
 pub use setup::{AgentOptions, setup};
 pub use uni::spawn_unipayload_handler;
 pub use util::process_multiple_changes;
+/// verification hook: the ingest loop, callable with a harness-owned channel
+#[cfg(feature = "verif")]
+pub use handlers::handle_changes as verif_handle_changes;
 
 pub const ANNOUNCE_INTERVAL: Duration = Duration::from_secs(300);
 pub const RANDOM_NODES_CHOICES: usize = 10;
